@@ -361,6 +361,50 @@ func caseParse(tag, s string) {
 	dist["parse:"+tag]++
 }
 
+// casePChild: parse a serialised key, then derive a child from the PARSED object (restored keys are where
+// children are derived from in practice): NewKeyFromString(s).Child(i) against parse-then-CKD of the specification.
+func casePChild(s string, i uint32) {
+	p := &prims{newTable()}
+	var pf *fields
+	impl := guard(func() string {
+		k, err := hdkeychain.NewKeyFromString(s)
+		if err != nil {
+			return res(nil, err)
+		}
+		f := k.VerifFields()
+		pf = &f
+		return res(k.Child(i))
+	})
+	var ref string
+	if x, e := p.refParse(s); e != "" {
+		ref = "err " + e
+	} else {
+		c, e2 := p.refCKD(x, i)
+		ref = p.fmtRef(c, e2)
+	}
+	d := p.b58dec(s)
+	if len(d) >= 4 {
+		p.dsha(d[:len(d)-4])
+	}
+	if len(d) == 82 {
+		kd := d[45:78]
+		f := fields{Version: d[0:4], Depth: d[4], ParentFP: d[5:9], ChildNum: uint32(d[9])<<24 | uint32(d[10])<<16 | uint32(d[11])<<8 | uint32(d[12]), ChainCode: d[13:45]}
+		if kd[0] == 0 {
+			f.IsPrivate, f.Key = true, kd[1:]
+			p.antKey(f)
+			p.antChild(f, i)
+		} else if _, ok := p.parse(kd); ok {
+			f.Key = kd
+			p.antKey(f)
+			p.antChild(f, i)
+		}
+	}
+	if pf != nil {
+		p.antChild(*pf, i) // the questions the real code asks on the fields it actually stored
+	}
+	emit("PCHILD", hx([]byte(s))+","+strconv.FormatUint(uint64(i), 10), impl, ref, "", p.t)
+}
+
 func pathStr(path []uint32) string {
 	s := make([]string, len(path))
 	for i, v := range path {
@@ -994,6 +1038,33 @@ func main() {
 		s := caseString(g)
 		caseParse("roundtrip-short", s)
 	}
+	// parse, then derive: serialised keys whose private scalar has 1..4 leading zero bytes (and ordinary ones),
+	// hardened and normal children of the PARSED object
+	for i := 0; i < 40*mult; i++ {
+		kf, ok := randomKey(r)
+		if !ok {
+			continue
+		}
+		g := kf
+		if g.IsPrivate && i%2 == 0 {
+			k := append([]byte{}, g.Key...)
+			for len(k) < 32 {
+				k = append([]byte{0}, k...)
+			}
+			for z := 0; z < 1+r.Intn(4); z++ {
+				k[z] = 0
+			}
+			g.Key = k
+		}
+		str := ""
+		guard(func() string { str = mk(g).String(); return "" })
+		if str == "" {
+			continue
+		}
+		casePChild(str, hard+uint32(r.Intn(50)))
+		casePChild(str, uint32(r.Intn(50)))
+		casePChild(str, 0xffffffff)
+	}
 
 	// --- Neuter (known and unknown version bytes, public keys)
 	for i := 0; i < 60*mult; i++ {
@@ -1196,6 +1267,8 @@ func doReplay(c string) {
 		caseMaster(unhex(a[0]), unhex(a[1]))
 	case "CHILD":
 		caseChild(decFields(a[0]), u32(a[1]))
+	case "PCHILD":
+		casePChild(string(unhex(a[0])), u32(a[1]))
 	case "OBJ":
 		caseObj(decFields(a[0]), u32(a[1]), a[2])
 	case "OBJN":
